@@ -154,6 +154,12 @@ def pot_shape(shape: str) -> dict:
         setup = "flip = 0\n"
         body = ['mon.write("#d0")', "p0.read()"] + one(0, "p0") + ["flip = 1 - flip", "if flip == 1:", '    mon.write("#d0")', "    p0.read()", "settle()"] + one(0, "p0")
         meta.update(pots=[{"i": 0, "pin": 15}], per_pass=[0] * 5, in_setup=[])
+    elif shape == "inbool":      # read() as an operand of `or` / `and` / `not` / a conditional expression: still ONE read per call
+        decl = 'p0 = Potentiometer("A1")\n'
+        setup = "zero = 0\none = 1\nkeep = 0\n"
+        body = ['mon.write("#d0")', "if p0.read() or zero:", '    mon.write("nz")', 'mon.write("#d0")', "keep = p0.read() and one", 'mon.write("#d0")',
+                "if not p0.read():", '    mon.write("z")', 'mon.write("#d0")', "keep = one if p0.read() else zero", 'mon.write("#d0")', "if zero or p0.read() or one:", '    mon.write("any")']
+        meta.update(pots=[{"i": 0, "pin": 15}], per_pass=[0] * 5, in_setup=[])
     elif shape in ("tuple2", "tuple3fn", "seqsum"):
         # several read() calls of one potentiometer inside ONE statement / expression list: the marker "#q0x<n>" announces
         # n calls whose results are printed afterwards in evaluation order (project_pot re-serialises them)
